@@ -179,6 +179,10 @@ def prepare_xfer(obs, x):
         dst = t.get('dst', 'path')
         if dst == 'path':
             path = dest_path(tmpdir, x)
+            if t.get('same_dest_as') is not None:
+                # several downloads (of different objects) aimed at ONE destination name
+                path = obs.xfers[t['same_dest_as']].dest
+                x.prev = obs.xfers[t['same_dest_as']].prev
             osu.labels[path] = x.label
             if t.get('dst_is_dir'):
                 make_dir_destination(path)
